@@ -78,6 +78,9 @@ func linkDigest(l datamodel.Link) (cid.Prefix, []byte, error) {
 	return cl.Cid.Prefix(), dm.Digest, nil
 }
 
+// HashesTo is hashesTo for other scenarios.
+func HashesTo(l datamodel.Link, data []byte) bool { return hashesTo(l, data) }
+
 // hashesTo reports whether data hashes to the link, independently computed.
 func hashesTo(l datamodel.Link, data []byte) bool {
 	p, dg, err := linkDigest(l)
